@@ -196,6 +196,8 @@ def run(chk):
     rng = chk.rng
     runner = Runner(chk, CM)
     N = N_THOROUGH if thorough else N_QUICK
+    if os.environ.get("VERIF_C15_SCALE"):       # development aid (mutation smoke tests): scale the number of descriptions
+        N = {k: max(20, int(v * float(os.environ["VERIF_C15_SCALE"]))) for k, v in N.items()}
     reported = {}
     t_start = time.time()
     for fmt in netdesc.FORMATS:
